@@ -234,7 +234,11 @@ def check_slices(ctx, chk, hv):
     L = ctx.layout
     seen = {}
     for name, m in hv.methods.items():
-        if not name.endswith("_slice"):
+        # the helpers are found by what they return - a slice object built from layout indices -,
+        # not by their (private) names
+        if m.flavour != "classmethod" or len(m.params) != 1 or not any(
+                isinstance(n, ast.Call) and isinstance(n.func, ast.Name) and n.func.id == "slice"
+                for n in ast.walk(m.node)):
             continue
         ip = Interp(ctx.repo, ctx.types)
         s = ip.run(m, {m.params[0]: ("classref", "HostVector")})
@@ -242,13 +246,16 @@ def check_slices(ctx, chk, hv):
         if len(s.returns) != 1:
             continue
         t = cn.norm(s.returns[0][1])
-        fam, elem = cn.index_family(t) if t[0] == "slice" else ("?", None)
+        if t[0] != "slice":
+            continue
+        fam, elem = cn.index_family(t)
         ok = fam in GROUPS and elem == "ALL"
         seen[fam] = name
         chk.ob("C09.layout", f"slice helper {name} spans exactly family {fam}", ok,
                cn.show(t), f"{hv.module.path}:{m.node.lineno}")
-    chk.ob("C09.layout", "slice helpers exist for all five group families",
-           set(seen) >= set(GROUPS), f"found {sorted(seen)}", hv.module.path, nontrivial=False)
+    # (whether such helpers exist at all is not part of the property: the accessors that use them
+    # are decided by C09.accessor on the columns they end up reading)
+    chk.note(f"slice helpers found for families {sorted(seen)}")
 
 
 def check_vectorize(ctx, chk, hv):
